@@ -2992,6 +2992,17 @@ class ContractionTree:
         """
         if reset:
             self.reset_contraction_indices()
+        else:
+            # keep the current orders as starting point, but any contraction
+            # 'recipes' refer to orders which are about to be changed
+            for node in self.children:
+                for k in (
+                    "einsum_eq",
+                    "can_dot",
+                    "tensordot_axes",
+                    "tensordot_perm",
+                ):
+                    self.info[node].pop(k, None)
 
         if priority == "flops":
             nodes = sorted(
